@@ -98,7 +98,10 @@ def call_natives(state, is_syscall):
         (re.compile(r"miden_core::code_blocks::Call::(is_syscall|fn_hash|hash|domain)"), n_block_part),
         (re.compile(r"CodeBlock::hash|miden_core::code_blocks::Dyn::dyn_hash"), lambda it, a, d, m: Opaque("hash")),
         (re.compile(r"<RpoDigest as Into<\[Felt; 4\]>>::into"), lambda it, a, d, m: [F(it.ctx.var(f"callee_hash{i}")) for i in range(4)]),
-        (re.compile(r"<RpoDigest as PartialEq>::eq"), lambda it, a, d, m: False),
+        # the callee hash may be the reserved hash of the dyn block (dyncall; a hand-built syscall node could carry it too)
+        (re.compile(r"<RpoDigest as PartialEq>::eq"), lambda it, a, d, m: it.decide(z3.Bool("fn_hash_is_dyn_hash"))),
+        (re.compile(r"miden_core::code_blocks::Dyn::new"), lambda it, a, d, m: Opaque("dyn_block")),
+        (re.compile(r"Process::<H>::execute_dyn_block"), n_child),
         (re.compile(r"Chiplets::hash_control_block"), n_hash_ctrl),
         (re.compile(r"Chiplets::access_kernel_proc"), n_kernel),
         (re.compile(r"Decoder::(start_call|start_syscall)"), n_start),
@@ -160,6 +163,18 @@ def feq(ctx, a, b):
     return ctx.eq(a.l, b.l)
 
 
+def confirm_syscall(V, name, ev):
+    """native: hand-built programs whose SYSCALL node targets a non-kernel hash must be refused"""
+    import masmsym
+    nat = masmsym.native([dict(kind="syscall_refusal")], "c07s")[0]
+    done = [o for o in nat.get("outcomes", []) if o.get("outcome") == "completed" or "SyscallTargetNotInKernel" not in o.get("error", "")]
+    if nat.get("status") != "ok" or done:
+        path = save_replay(PROP, "syscall_refusal", dict(kind="syscall_refusal", native=nat, events=ev))
+        V.violation(name, path, f"a syscall path starts the block before consulting the kernel ROM ({ev[:3]}); native: a SYSCALL node whose target is not a kernel procedure is not refused: {done or nat}", key="syscall:kernel-first")
+    else:
+        V.add(name, "inconclusive", detail=f"{ev[:3]}; native programs with a non-kernel SYSCALL target are refused: {nat}")
+
+
 def check_calls(interp, meta, V, cov):
     for is_syscall in (False, True):
         kind_name = "syscall" if is_syscall else "call"
@@ -185,7 +200,10 @@ def check_calls(interp, meta, V, cov):
                 continue
             if is_syscall:
                 first = [e for e in ev if e[0] in ("chiplets", "decoder", "child")][:1]
-                V.add(f"{tag}: kernel ROM consulted before anything else", "discharged" if first == [("chiplets", "access_kernel_proc")] else "inconclusive", detail=str(ev[:3]))
+                if first == [("chiplets", "access_kernel_proc")]:
+                    V.add(f"{tag}: kernel ROM consulted before anything else", "discharged")
+                else:
+                    confirm_syscall(V, f"{tag}: kernel ROM consulted before anything else", ev)
                 if err == "SyscallTargetNotInKernel":
                     V.add(f"{tag}: refusal propagates with no block started", "discharged" if not any(e[0] in ("decoder", "child") for e in ev) else "inconclusive")
                     seen.add("refused")
